@@ -45,7 +45,13 @@ type Pred struct {
 	C    int    `json:"c,omitempty"`
 	M    int    `json:"m,omitempty"`
 	R    int    `json:"r,omitempty"`
+	// the predicate FAILS on x when x mod EM == ER (EM > 0): it then answers (true, error) - an element whose
+	// predicate failed is not taken, whatever the boolean says
+	EM int `json:"em,omitempty"`
+	ER int `json:"er,omitempty"`
 }
+
+func (p Pred) fails(x int) bool { return p.EM > 0 && mod(x, p.EM) == p.ER }
 
 func (p Pred) apply(x int) bool {
 	switch p.Kind {
@@ -248,6 +254,9 @@ func (s *Stage) eitherE(c *calls) func(int) (int, error) {
 func (s *Stage) predE(c *calls) func(int) (bool, error) {
 	return func(x int) (bool, error) {
 		c.enter(x)
+		if s.Pred.fails(x) {
+			return true, errVal(1000 + x)
+		}
 		return s.Pred.apply(x), nil
 	}
 }
